@@ -127,9 +127,15 @@ def drive(mod, tier, seed):
             if len(chosen) >= K:
                 break
         # the same eventful transitions as one batch under vmap (lane j must equal the jitted single call)
-        if len(chosen) >= 2:
+        # (states of one pytree structure only: a harness-side witness generator may hand out a richer reset state)
+        groups = {}
+        for t in chosen:
+            groups.setdefault(str(jax.tree_util.tree_structure(t[4])), []).append(t)
+        batch = max(groups.values(), key=len) if groups else []
+        if len(batch) >= 2:
             from harness.lib.treecmp import slice_tree
 
+            chosen_all, chosen = chosen, batch
             try:
                 bs = jax.tree_util.tree_map(lambda *xs: jnp.stack(xs), *[t[4] for t in chosen])
                 ba = jnp.stack([t[5] for t in chosen])
@@ -148,6 +154,7 @@ def drive(mod, tier, seed):
                 evs.append({"k": "call", "env": name, "fn": "step", "mode": "vmap", "seq": seq[0], "args_d": "x", "args_after_d": "x",
                             "outcome": "raise:" + type(e).__name__, "note": "vmap over the eventful transitions",
                             "detail": str(e)[:200], "cls": -1, "result_d": "none"})
+            chosen = chosen_all
         for (score, ch, last, rewarded, s, a) in chosen:
             note = f"eventful transition: changed {len(ch)} leaves{', rewarded' if rewarded else ''}{', LAST' if last else ''}"
             call(name, "step", "jit", jstep, (s, a), note=note)
